@@ -157,7 +157,7 @@ var propExplanationMore = map[string]string{
 	"C09": " Added: cross-record state of the parser (C15.R6) and universe-wide transient-string stores (C12.R6); the facility / level stored are FacilityNames[p>>3] / levelMapping[p&7] of the Atoi result of this record's PRI text (R5).",
 	"C10": " Added: the serializer keeps nothing of a record — no transient string is stored into its fields or their elements (C12.R6), no cross-record state other than the reviewed scratch buffer (C15.R6); constructor wiring of encoder and buffer stays intact (C11.R9).",
 	"C11": " Added (R9): constructor-wired field pairs (a helper built on a buffer / channel kept in a sibling field) are enumerated from all constructors; the wired field is stored nowhere else.",
-	"C12": " R1 finds the recycle path as the call chain from Release to the record's Pool.Put (helper names do not matter). Added: universe-wide transient-string store rule over per-record code (R6); no record field aliases a long-lived scratch buffer, and per-record packages do not import unsafe outside util/strings.go (R7).",
+	"C12": " R1 finds the recycle path as the call chain from Release to the record's Pool.Put (helper names do not matter). Added: universe-wide transient-string store rule over per-record code (R6); no record field aliases a long-lived scratch buffer, and per-record packages do not import unsafe outside util/strings.go (R7); the cross-record state rule (C15.R6) is run for this property: the call trees of the transforms, the parser, the key-set selection and the serializer carry no state from record to record other than key-determined caches, whole-input memos and the reviewed inventory.",
 	"C13": " Added: cross-record state (C15.R6): timezoneCache is proved a key-determined cache; a memo must be keyed by everything its value depends on. R2 accepts a memo field that only ever holds the parser's result under err == nil. R5: the zone offset arithmetic is delegated to package time (FixedZone of time.Parse(...).Zone()); offsets computed by the module are UNDECIDED, which fails.",
 	"C15": " Added (R6): every field that per-record code of the transforms and the parser both writes and reads is a key-determined cache, a whole-input memo or a reviewed item (batched counters, scratch buffers, the documented sampling totals). R7: each value-matcher tag is exactly the primitive its documentation names (operator, strings function, bound glob/regexp method of the compiled operand); anything else is UNDECIDED and fails.",
 	"C16": " C07.R1 (run-time index safety of what an accepted configuration builds) is run for this property too. Added: index safety of the loading / verification tree itself (R5); no check receives a never-assigned (shadowed) variable that it reads (R6); no failed check is reported as success (R7, the failure walker of C04.R5).",
